@@ -337,17 +337,17 @@ pub fn check(tier: Tier) -> Check {
             "the node allocates activity prefixes sequentially from 0, so prefixes >= 2^32 were certainly never used",
         ],
         deciding: vec!["C12"],
-        streams: vec![Stream::new("unsolicited", tier.pick(200, 4000), scenario)],
+        streams: vec![Stream::new("unsolicited", tier.pick(1_200, 4000), scenario)],
         require: vec![
-            ("unsolicited_queries", tier.pick(8_000, 400_000)),
-            ("unsolicited_queries_claiming_a_hearsay_id", tier.pick(1_000, 50_000)),
-            ("strangers_announcing_with_a_valid_token", tier.pick(300, 15_000)),
-            ("configs_with_a_router_also_given_as_node", tier.pick(10, 200)),
-            ("responses_with_wrong_tid_length", tier.pick(3_000, 150_000)),
-            ("responses_with_never_used_prefix", tier.pick(3_000, 150_000)),
-            ("responses_with_live_id_of_wrong_length", tier.pick(2_000, 100_000)),
-            ("contact_samples", tier.pick(4_000, 200_000)),
-            ("searches_during_injection", tier.pick(200, 4_000)),
+            ("unsolicited_queries", tier.pick(48_000, 400_000)),
+            ("unsolicited_queries_claiming_a_hearsay_id", tier.pick(6_000, 50_000)),
+            ("strangers_announcing_with_a_valid_token", tier.pick(1_800, 15_000)),
+            ("configs_with_a_router_also_given_as_node", tier.pick(60, 200)),
+            ("responses_with_wrong_tid_length", tier.pick(18_000, 150_000)),
+            ("responses_with_never_used_prefix", tier.pick(18_000, 150_000)),
+            ("responses_with_live_id_of_wrong_length", tier.pick(12_000, 100_000)),
+            ("contact_samples", tier.pick(24_000, 200_000)),
+            ("searches_during_injection", tier.pick(1_200, 4_000)),
         ],
         exhaustive: false,
     }
